@@ -2,7 +2,7 @@ HOOK_COMMITS = []
 ENGINES = [
     {"name": "runner", "path": "vlib/runner.py", "serves_properties": ["C01"], "kind_free_text": "Hypothesis driver: seeded workers, collect-then-shrink per root-cause key, plain-JSON replay, evidence"},
     {"name": "E1 refcodec", "path": "vlib/refcodec.py", "serves_properties": ["C01","C02","C03"], "kind_free_text": "independent RFC 7252 section 3 codec used as differential oracle and by the raw peers"},
-    {"name": "E2 simnet", "path": "vlib/simnet.py", "serves_properties": ["C02", "C03", "C04", "C05", "C07", "C08", "C09", "C10", "C14", "C18"], "kind_free_text": "virtual-clock asyncio loop + simulated datagram network under the real aiocoap stack; scripted raw peers; per-datagram fates"},
+    {"name": "E2 simnet", "path": "vlib/simnet.py", "serves_properties": ["C02", "C03", "C04", "C05", "C06", "C07", "C08", "C09", "C10", "C14", "C18"], "kind_free_text": "virtual-clock asyncio loop + simulated datagram network under the real aiocoap stack; scripted raw peers; per-datagram fates"},
 ]
 ALL = ["C%02d" % i for i in range(1, 21)]
 CHECKS = [
@@ -85,6 +85,14 @@ CHECKS += [
         "technique": "property-based differential testing of the block-wise client against an independent RFC 7959 reference server (sizes, negotiations, mid-transfer reductions, loss, misbehaving-server mutations)",
         "text": "Body sizes around every block boundary, client and server size exponents, mid-transfer reductions in both directions, ETag policy, loss/duplication and nine server misbehaviours are generated; the reference server (written from the RFC, no aiocoap code) records the reassembled body and every inconsistency of the client's block options; results must be byte-identical or library errors. Sampled parameter combinations.",
         "note": "trusted: the reference server in checks/c05.py (self-tested on a hand-made exchange), vlib/simnet.py, refcodec",
+    },
+]
+CHECKS += [
+    {
+        "id": "C06", "engine": "E2 simnet + reference model + exhaustive grid + Hypothesis", "level": "exploration",
+        "technique": "model-based (stateful) property testing: histories of symbolic block requests from several clients with idle times on a virtual clock, interpreted against a reference model of spool and cache with three-zone expiry; exhaustive Block2 grid",
+        "text": "Each step is chosen relative to the reference model's state for its key (next / restart / repeat / skip / earlier / another key's next block), the real server's answer is compared with the model after every step (handler invocations and bodies, 2.31 / 4.08 / 4.00, exact Block2 slices, never 5.xx), and state lifetime is checked in three zones around MAX_TRANSMIT_WAIT. The Block2 follow-up grid (length x sizes x block number) is enumerated completely; histories are sampled.",
+        "note": "trusted: the reference model in checks/c06.py, vlib/simnet.py, refcodec",
     },
 ]
 claimed = {c["id"] for c in CHECKS}
